@@ -82,3 +82,30 @@ package auth
 //@ ensures [C19] err == nil && U != "" ==> authOK(a) && !has(a.indexer.index, U) && (old(has(a.indexer.index, U)) || old(synced(a)) ==> synced(a))
 //@ ensures [C19] forall s string :: s != U ==> has(a.indexer.index, s) == old(has(a.indexer.index, s)) && (has(a.indexer.index, s) ==> stored(a, s) == old(stored(a, s)))
 //@ ensures [C19] err != nil ==> authOK(a) && has(a.indexer.index, U) == old(has(a.indexer.index, U)) && (has(a.indexer.index, U) ==> stored(a, U) == old(stored(a, U))) && (old(synced(a)) ==> synced(a))
+
+// The password file a restarted broker loads is pwdPath(a); it must be the file saveFileHandler replaces.
+// (The serialisation itself — yaml, bufio, the temp file — is outside the engine's reach and abstracted.)
+//@ spec func pwdPath(a *Auth) string = isAbs(a.config.PasswordFile) ? a.config.PasswordFile : joinPath(a.pwdDir, a.config.PasswordFile)
+
+//@ func (*Auth).saveFileHandler
+//@ props C19
+//@ requires [C19] a != nil && a.config != nil && idxOK(a.indexer)
+//@ modifies allelems(byte)
+//@ abstract call ioutil.TempFile pure
+//@ abstract call bufio pure
+//@ abstract call Indexer).Iterate pure
+//@ abstract call Indexer).Len pure
+//@ abstract call yaml pure
+//@ abstract call os.File pure
+//@ call Rename#1 assert [C19] newpath == pwdPath(a)
+
+//@ func (*Auth).Load
+//@ props C19
+//@ requires [C19] a != nil && a.config != nil && idxOK(a.indexer) && registerAPI != nil
+//@ modifies heap
+//@ abstract call ioutil pure
+//@ abstract call yaml pure
+//@ abstract call os.File pure
+//@ abstract call LoggerWithField pure
+//@ abstract call registerAPI pure
+//@ call OpenFile#1 assert [C19] name == pwdPath(a)
